@@ -780,8 +780,10 @@ def floors_for(quick):
     """minimum number of comparisons per run (about 70 % of what seeds 0..9 deliver), upper bounds on skipped paths, and the cases
     that must have been packed / refused"""
     if quick:
-        return {"min": {"images": 230, "refused": 38, "a_nodes": 45000, "a_files": 2300, "b_nodes": 45000, "c_list_entries": 7000, "c_stat": 2600, "c_xattr": 900,
-                        "d_files": 1800, "e_nodes": 40000, "e_files": 2300, "a_link_names": 250, "c_link_names_stat": 250, "a_files_4g": 1},
+        # seeds 0..9 deliver: 258 images, 42 refusals, a 70.8-72.3k nodes / 2061-2975 files, b 70.5-72.2k, -l 13.4-15.0k entries, -s 3483-3654,
+        # -x 1183-1324, -c 1968-2231 files, e 65.0-66.8k nodes / 2491-3311 files, 670-799 names in hard-link groups
+        return {"min": {"images": 250, "refused": 40, "a_nodes": 55000, "a_files": 1600, "b_nodes": 55000, "c_list_entries": 10000, "c_stat": 2700, "c_xattr": 900,
+                        "d_files": 1500, "e_nodes": 50000, "e_files": 1900, "a_link_names": 500, "c_link_names_stat": 500, "a_files_4g": 1},
                 "max_fraction_of_images": {"b_skipped": 0.08, "e_skipped": 0.12},
                 "must": {"ids-65535-accepted": "packed", "ids-65536": "refused", "ids-65537": "refused", "ids-40000-wide-accepted": "packed",
                          "nesting-4096-accepted": "packed", "nesting-4097-explicit": "refused", "name-256-accepted": "packed", "name-257": "refused",
